@@ -346,7 +346,8 @@ class RefTransfer:
             if size <= 0:
                 # nothing measurable in this unit: only a zero request could be carried out
                 self.zero_source = True
-                m = -math.inf if q > 0 else 0.0
+                # a request below the rounding grain of its unit is a zero request: don't care
+                m = -math.inf if q > max(req_grain, cfg.grain) else 0.0
                 self._note_margin(m, 'source-empty')
                 phi = 0.0
                 eps = 0.0
